@@ -733,12 +733,16 @@ def argmin(array, axis=None, keepdims=False, mask_identity=True):
             best_index = None
             best_value = None
             for partition in layout.partitions:
+                flattened_length = 0
                 for tmp in ak._util.completely_flatten(partition):
-                    out = ak.nplike.of(tmp).argmin(tmp, axis=None)
-                    if best_index is None or tmp[out] < best_value:
-                        best_index = start + out
-                        best_value = tmp[out]
-                start += len(partition)
+                    if len(tmp) != 0:
+                        out = ak.nplike.of(tmp).argmin(tmp, axis=None)
+                        if best_index is None or tmp[out] < best_value:
+                            best_index = start + out
+                            best_value = tmp[out]
+                    if len(tmp) > flattened_length:
+                        flattened_length = len(tmp)
+                start += flattened_length
             return best_index
 
         else:
@@ -803,12 +807,16 @@ def argmax(array, axis=None, keepdims=False, mask_identity=True):
             best_index = None
             best_value = None
             for partition in layout.partitions:
+                flattened_length = 0
                 for tmp in ak._util.completely_flatten(partition):
-                    out = ak.nplike.of(tmp).argmax(tmp, axis=None)
-                    if best_index is None or tmp[out] > best_value:
-                        best_index = start + out
-                        best_value = tmp[out]
-                start += len(partition)
+                    if len(tmp) != 0:
+                        out = ak.nplike.of(tmp).argmax(tmp, axis=None)
+                        if best_index is None or tmp[out] > best_value:
+                            best_index = start + out
+                            best_value = tmp[out]
+                    if len(tmp) > flattened_length:
+                        flattened_length = len(tmp)
+                start += flattened_length
             return best_index
 
         else:
